@@ -435,8 +435,11 @@ Proof.
 Qed.
 
 (* the tables of exactly the batches whose selection holds the pair {a, b} (either orientation) *)
+Definition contributing_sel (c : config) (header : list str) (ps : list (option (list str))) (sels : list (list Combos.pair))
+           (a b : str) : list (list (list str)) :=
+  map fst (filter (fun ts => Combos.umemb (a, b) (snd ts)) (combine (batch_tables c header ps) sels)).
 Definition contributing (c : config) (header : list str) (ps : list (option (list str))) (a b : str) : list (list (list str)) :=
-  map fst (filter (fun ts => Combos.umemb (a, b) (snd ts)) (combine (batch_tables c header ps) (cap_sels c header ps))).
+  contributing_sel c header ps (cap_sels c header ps) a b.
 
 Lemma emit_table_sorted header D X :
   StronglySorted (fun r1 r2 : str * str * Q => Qle (snd r1) (snd r2)) (map (emit header D) (final_sort X)).
@@ -514,21 +517,36 @@ Proof.
   rewrite <- cap_cands_eq, E in H. destruct H as [[]|[]].
 Qed.
 
-Section CapMain.
-  Variables (c : config) (header : list str) (ps : list (option (list str))) (t : table).
-  Hypothesis Hrun : e2ecap_core c header ps = Some t.
+Lemma e2ecap_core_pairs_some c header ps sels t : e2ecap_core_pairs c header ps sels = Some t ->
+  cap_config_ok c header = true /\ crashes c ps = false /\ e2e_batches c header ps <> [] /\
+  t = map (emit header (common_den (e2e_batches c header ps))) (final_table (cap_all_rows_sel c header ps sels)).
+Proof.
+  unfold e2ecap_core_pairs. destruct (cap_config_ok c header); [|discriminate]. cbn [negb].
+  destruct (crashes c ps); [discriminate|]. destruct (e2e_batches c header ps) eqn:E; [discriminate|].
+  intros H. inversion H. repeat split. discriminate.
+Qed.
+
+Lemma e2ecap_core_is_pairs c header ps : e2ecap_core c header ps = e2ecap_core_pairs c header ps (cap_sels c header ps).
+Proof. reflexivity. Qed.
+
+(* general form: any list of per-batch selections that are duplicate-free sub-lists of the candidates *)
+Section CapMainG.
+  Variables (c : config) (header : list str) (ps : list (option (list str))) (sels : list (list Combos.pair)) (t : table).
+  Hypothesis Hrun : e2ecap_core_pairs c header ps sels = Some t.
+  Hypothesis Hlen : length sels = length (e2e_batches c header ps).
+  Hypothesis Hsel : forall sel, In sel sels ->
+    incl sel (cap_cands c header) /\ closed header sel /\ NoDup sel /\ oriented sel.
 
   Let bs := e2e_batches c header ps.
   Let D := common_den bs.
   Let cands := cap_cands c header.
-  Let sels := cap_sels c header ps.
   Let bes := combine bs sels.
 
-  Lemma cap_facts : (0 < g_B c)%N /\ supported_heur (g_heur c) = true /\ NoDup header /\ In (g_label c) header
+  Lemma g_cap_facts : (0 < g_B c)%N /\ supported_heur (g_heur c) = true /\ NoDup header /\ In (g_label c) header
     /\ closed header cands /\ CombosProofs.once cands /\ bs <> [] /\ D <> 0%N
     /\ (forall b, In b bs -> b <> [] /\ (N.of_nat (length b) | D)%N) /\ (1 <= g_cap c)%Z /\ crashes c ps = false.
   Proof.
-    destruct (e2ecap_core_some _ _ _ _ Hrun) as (Hok & Hcr & Hne & _).
+    destruct (e2ecap_core_pairs_some _ _ _ _ _ Hrun) as (Hok & Hcr & Hne & _).
     destruct (cap_config_ok_spec _ _ Hok) as (HB & _ & Hs & Hnd & Hl & Hcap).
     pose proof (batches_nonempty c header ps HB) as Hbn. destruct (common_den_spec _ Hbn) as [HD Hdiv].
     assert (Hcl : closed header cands).
@@ -540,21 +558,17 @@ Section CapMain.
     - apply Hdiv. exact Hb0.
   Qed.
 
-  Lemma cap_t_eq : t = map (emit header D) (final_table (cap_all_rows c header ps)).
-  Proof. destruct (e2ecap_core_some _ _ _ _ Hrun) as (_ & _ & _ & E). exact E. Qed.
+  Lemma g_cap_t_eq : t = map (emit header D) (final_table (cap_all_rows_sel c header ps sels)).
+  Proof. destruct (e2ecap_core_pairs_some _ _ _ _ _ Hrun) as (_ & _ & _ & E). exact E. Qed.
 
-  Lemma sel_facts sel : In sel sels -> incl sel cands /\ closed header sel /\ NoDup sel /\ oriented sel.
-  Proof.
-    intros H. destruct cap_facts as (_ & _ & _ & _ & Hcl & Honce & _).
-    pose proof (cap_sels_ok c header ps) as F. rewrite Forall_forall in F.
-    apply (selected_facts header cands (g_cap c) sel Hcl Honce). apply F. exact H.
-  Qed.
+  Lemma g_sel_facts sel : In sel sels -> incl sel cands /\ closed header sel /\ NoDup sel /\ oriented sel.
+  Proof. apply Hsel. Qed.
 
-  Lemma bes_facts be : In be bes -> incl (snd be) cands /\ closed header (snd be) /\ NoDup (snd be) /\ oriented (snd be).
-  Proof. intros H. apply sel_facts. destruct be as [b sel]. apply in_combine_r in H. exact H. Qed.
+  Lemma g_bes_facts be : In be bes -> incl (snd be) cands /\ closed header (snd be) /\ NoDup (snd be) /\ oriented (snd be).
+  Proof. intros H. apply g_sel_facts. destruct be as [b sel]. apply in_combine_r in H. exact H. Qed.
 
-  Theorem cap_sorted : StronglySorted (fun r1 r2 : str * str * Q => Qle (snd r1) (snd r2)) t.
-  Proof. rewrite cap_t_eq. apply emit_table_sorted. Qed.
+  Theorem g_cap_sorted : StronglySorted (fun r1 r2 : str * str * Q => Qle (snd r1) (snd r2)) t.
+  Proof. rewrite g_cap_t_eq. apply emit_table_sorted. Qed.
 
   (* ---- coverage ---- *)
   Section Cov.
@@ -563,132 +577,166 @@ Section CapMain.
     Let V (be : list Stream.line * list Combos.pair) (xy : str * str) : Z :=
       Z.of_N (pair_num header D (batch_rows ps (fst be)) (fst xy) (snd xy)).
 
-    Lemma cap_rows_cov : cap_all_rows c header ps = vrows header (fun be => mkeys (snd be)) V bes.
+    Lemma g_cap_rows_cov : cap_all_rows_sel c header ps sels = vrows header (fun be => mkeys (snd be)) V bes.
     Proof.
-      destruct cap_facts as (_ & _ & _ & Hl & _).
-      unfold cap_all_rows, vrows. apply flat_map_ext_in'. intros be Hbe.
-      destruct (bes_facts be Hbe) as (_ & Hcl & _). apply rows_cov_ev; assumption.
+      destruct g_cap_facts as (_ & _ & _ & Hl & _).
+      unfold cap_all_rows_sel, vrows. apply flat_map_ext_in'. intros be Hbe.
+      destruct (g_bes_facts be Hbe) as (_ & Hcl & _). apply rows_cov_ev; assumption.
     Qed.
 
-    Lemma contributing_bes a b :
-      map (fun rows => Z.of_N (pair_num header D rows a b)) (contributing c header ps a b)
+    Lemma g_contributing_bes a b :
+      map (fun rows => Z.of_N (pair_num header D rows a b)) (contributing_sel c header ps sels a b)
       = map (fun be => V be (a, b)) (filter (fun be => Combos.umemb (a, b) (snd be)) bes).
     Proof.
-      unfold contributing, batch_tables. rewrite combine_map_l, filter_map_comm, !map_map. reflexivity.
+      unfold contributing_sel, batch_tables. rewrite combine_map_l, filter_map_comm, !map_map. reflexivity.
     Qed.
 
-    Lemma contributing_nonempty a b :
-      contributing c header ps a b <> [] <-> exists be, In be bes /\ Combos.umemb (a, b) (snd be) = true.
+    Lemma g_contributing_nonempty a b :
+      contributing_sel c header ps sels a b <> [] <-> exists be, In be bes /\ Combos.umemb (a, b) (snd be) = true.
     Proof.
-      unfold contributing, batch_tables. rewrite map_nonempty, combine_map_l, filter_map_comm, map_nonempty, filter_nonempty.
+      unfold contributing_sel, batch_tables. rewrite map_nonempty, combine_map_l, filter_map_comm, map_nonempty, filter_nonempty.
       reflexivity.
     Qed.
 
-    Lemma cov_scores a b : In a header -> In b header ->
-      median2 (scores_of (kx header (a, b)) (cap_all_rows c header ps))
-      = median2 (map (fun rows => Z.of_N (pair_num header D rows a b)) (contributing c header ps a b)).
+    Lemma g_cov_scores a b : In a header -> In b header ->
+      median2 (scores_of (kx header (a, b)) (cap_all_rows_sel c header ps sels))
+      = median2 (map (fun rows => Z.of_N (pair_num header D rows a b)) (contributing_sel c header ps sels a b)).
     Proof.
-      intros Ha Hb. rewrite cap_rows_cov, contributing_bes.
+      intros Ha Hb. rewrite g_cap_rows_cov, g_contributing_bes.
       rewrite (vrows_scores header (fun be => mkeys (snd be)) V bes (a, b) (fun be => Combos.umemb (a, b) (snd be)) (pmult a b)).
       - apply median2_replicate, pmult_pos.
       - exact Ha.
       - exact Hb.
-      - intros be Hbe. destruct (bes_facts be Hbe) as (_ & Hcl & _). apply mkeys_closed. exact Hcl.
-      - intros be Hbe. destruct (bes_facts be Hbe) as (_ & Hcl & Hnd & Hor). apply mult_mkeys_sel; assumption.
+      - intros be Hbe. destruct (g_bes_facts be Hbe) as (_ & Hcl & _). apply mkeys_closed. exact Hcl.
+      - intros be Hbe. destruct (g_bes_facts be Hbe) as (_ & Hcl & Hnd & Hor). apply mult_mkeys_sel; assumption.
     Qed.
 
-    Lemma cov_keys k : In k (map fst (cap_all_rows c header ps)) <->
-      exists a b, k = kx header (a, b) /\ In a header /\ In b header /\ contributing c header ps a b <> [].
+    Lemma g_cov_keys k : In k (map fst (cap_all_rows_sel c header ps sels)) <->
+      exists a b, k = kx header (a, b) /\ In a header /\ In b header /\ contributing_sel c header ps sels a b <> [].
     Proof.
-      rewrite cap_rows_cov, vrows_keys. split.
-      - intros [be [[x y] [Hbe [Hxy ->]]]]. destruct (bes_facts be Hbe) as (_ & Hcl & _).
+      rewrite g_cap_rows_cov, vrows_keys. split.
+      - intros [be [[x y] [Hbe [Hxy ->]]]]. destruct (g_bes_facts be Hbe) as (_ & Hcl & _).
         destruct (mkeys_closed header _ Hcl _ _ Hxy) as [Hx Hy]. exists x, y. split; [reflexivity|]. split; [exact Hx|].
-        split; [exact Hy|]. apply contributing_nonempty. exists be. split; [exact Hbe|].
+        split; [exact Hy|]. apply g_contributing_nonempty. exists be. split; [exact Hbe|].
         apply CombosProofs.umemb_uin. apply in_mkeys. exact Hxy.
-      - intros [a [b [-> [Ha [Hb Hne]]]]]. apply contributing_nonempty in Hne. destruct Hne as [be [Hbe Hu]].
+      - intros [a [b [-> [Ha [Hb Hne]]]]]. apply g_contributing_nonempty in Hne. destruct Hne as [be [Hbe Hu]].
         exists be, (a, b). split; [exact Hbe|]. split; [|reflexivity]. apply in_mkeys. apply CombosProofs.umemb_uin. exact Hu.
     Qed.
 
-    Lemma contributing_requested a b : contributing c header ps a b <> [] -> requested c header a b.
+    Lemma g_contributing_requested a b : contributing_sel c header ps sels a b <> [] -> requested c header a b.
     Proof.
-      intros H. apply contributing_nonempty in H. destruct H as [be [Hbe Hu]].
-      destruct cap_facts as (_ & Hs & _). destruct (bes_facts be Hbe) as (Hi & _).
+      intros H. apply g_contributing_nonempty in H. destruct H as [be [Hbe Hu]].
+      destruct g_cap_facts as (_ & Hs & _). destruct (g_bes_facts be Hbe) as (Hi & _).
       apply (requested_uin c header a b Hs). apply CombosProofs.umemb_uin in Hu. rewrite <- cap_cands_eq. fold cands.
       destruct Hu as [Hu|Hu]; [left|right]; apply Hi; exact Hu.
     Qed.
 
-    Theorem cap_cov_rows a b q :
+    Theorem g_cap_cov_rows a b q :
       In (a, b, q) t <->
-      requested c header a b /\ contributing c header ps a b <> [] /\
-      q = Qmake (median2 (map (fun rows => Z.of_N (pair_num header D rows a b)) (contributing c header ps a b))) (den_pos D).
+      requested c header a b /\ contributing_sel c header ps sels a b <> [] /\
+      q = Qmake (median2 (map (fun rows => Z.of_N (pair_num header D rows a b)) (contributing_sel c header ps sels a b))) (den_pos D).
     Proof.
-      rewrite cap_t_eq, in_emit_table. split.
+      rewrite g_cap_t_eq, in_emit_table. split.
       - intros [r [Hr He]]. apply aggregate_rows in Hr. destruct Hr as [Hk Hm].
-        apply cov_keys in Hk. destruct Hk as [x [y [Ek [Hx [Hy Hne]]]]].
+        apply g_cov_keys in Hk. destruct Hk as [x [y [Ek [Hx [Hy Hne]]]]].
         destruct r as [k z]. cbn [fst snd] in *. subst k.
         rewrite (emit_kx header D (x, y) z Hx Hy) in He. cbn [fst snd] in He. inversion He; subst x y q.
-        split; [apply contributing_requested; exact Hne|]. split; [exact Hne|].
-        rewrite Hm, cov_scores by assumption. reflexivity.
+        split; [apply g_contributing_requested; exact Hne|]. split; [exact Hne|].
+        rewrite Hm, g_cov_scores by assumption. reflexivity.
       - intros [Hreq [Hne ->]]. destruct Hreq as [Ha [Hb _]].
-        exists (kx header (a, b), median2 (scores_of (kx header (a, b)) (cap_all_rows c header ps))). split.
-        + apply aggregate_rows. cbn [fst snd]. split; [|reflexivity]. apply cov_keys. exists a, b. auto.
-        + rewrite (emit_kx header D (a, b) _ Ha Hb). cbn [fst snd]. rewrite cov_scores by assumption. reflexivity.
+        exists (kx header (a, b), median2 (scores_of (kx header (a, b)) (cap_all_rows_sel c header ps sels))). split.
+        + apply aggregate_rows. cbn [fst snd]. split; [|reflexivity]. apply g_cov_keys. exists a, b. auto.
+        + rewrite (emit_kx header D (a, b) _ Ha Hb). cbn [fst snd]. rewrite g_cov_scores by assumption. reflexivity.
     Qed.
 
-    Lemma cov_keys_closed k : In k (map fst (cap_all_rows c header ps)) ->
+    Lemma g_cov_keys_closed k : In k (map fst (cap_all_rows_sel c header ps sels)) ->
       exists xy, k = kx header xy /\ In (fst xy) header /\ In (snd xy) header.
-    Proof. intros H. apply cov_keys in H. destruct H as [a [b [-> [Ha [Hb _]]]]]. exists (a, b). auto. Qed.
+    Proof. intros H. apply g_cov_keys in H. destruct H as [a [b [-> [Ha [Hb _]]]]]. exists (a, b). auto. Qed.
   End Cov.
 
   (* ---- Constant ---- *)
   Section Const.
     Hypothesis Hconst : Combos.is_const (g_heur c) = true.
 
-    Lemma cap_rows_const : cap_all_rows c header ps = vrows header (fun be => snd be) (fun _ _ => 0%Z) bes.
-    Proof. unfold cap_all_rows, vrows. apply flat_map_ext. intros be. apply rows_const_ev. exact Hconst. Qed.
+    Lemma g_cap_rows_const : cap_all_rows_sel c header ps sels = vrows header (fun be => snd be) (fun _ _ => 0%Z) bes.
+    Proof. unfold cap_all_rows_sel, vrows. apply flat_map_ext. intros be. apply rows_const_ev. exact Hconst. Qed.
 
-    Lemma const_scores k : median2 (scores_of k (cap_all_rows c header ps)) = 0%Z.
+    Lemma g_const_scores k : median2 (scores_of k (cap_all_rows_sel c header ps sels)) = 0%Z.
     Proof.
       apply median2_zeros. apply Forall_forall. intros z Hz. apply scores_of_In in Hz.
-      rewrite cap_rows_const in Hz. unfold vrows in Hz. apply in_flat_map in Hz. destruct Hz as [be [_ Hz]].
+      rewrite g_cap_rows_const in Hz. unfold vrows in Hz. apply in_flat_map in Hz. destruct Hz as [be [_ Hz]].
       apply in_map_iff in Hz. destruct Hz as [xy [E _]]. inversion E. reflexivity.
     Qed.
 
-    Theorem cap_const_rows a b q :
+    Theorem g_cap_const_rows a b q :
       In (a, b, q) t <->
       In (a, b) cands /\ (exists sel, In sel sels /\ In (a, b) sel) /\ q = Qmake 0 (den_pos D).
     Proof.
-      rewrite cap_t_eq, in_emit_table. split.
-      - intros [r [Hr He]]. apply aggregate_rows in Hr. destruct Hr as [Hk Hm]. rewrite const_scores in Hm.
-        rewrite cap_rows_const in Hk. apply vrows_keys in Hk. destruct Hk as [be [[x y] [Hbe [Hxy Ek]]]].
-        destruct (bes_facts be Hbe) as (Hi & Hcl & _). destruct (Hcl _ _ Hxy) as [Hx Hy].
+      rewrite g_cap_t_eq, in_emit_table. split.
+      - intros [r [Hr He]]. apply aggregate_rows in Hr. destruct Hr as [Hk Hm]. rewrite g_const_scores in Hm.
+        rewrite g_cap_rows_const in Hk. apply vrows_keys in Hk. destruct Hk as [be [[x y] [Hbe [Hxy Ek]]]].
+        destruct (g_bes_facts be Hbe) as (Hi & Hcl & _). destruct (Hcl _ _ Hxy) as [Hx Hy].
         destruct r as [k z]. cbn [fst snd] in *. subst k z.
         rewrite (emit_kx header D (x, y) 0%Z Hx Hy) in He. cbn [fst snd] in He. inversion He; subst x y q.
         split; [apply Hi; exact Hxy|]. split; [|reflexivity]. exists (snd be). split; [|exact Hxy].
         destruct be as [b0 sel]. apply in_combine_r in Hbe. exact Hbe.
-      - intros [Hc [[sel [Hsel Hin]] ->]]. destruct cap_facts as (_ & _ & _ & _ & Hcl & _). destruct (Hcl _ _ Hc) as [Ha Hb].
-        destruct (in_combine_snd bs sels sel (cap_sels_length c header ps) Hsel) as [b0 Hbe].
+      - intros [Hc [[sel [Hinsel Hin]] ->]]. destruct g_cap_facts as (_ & _ & _ & _ & Hcl & _). destruct (Hcl _ _ Hc) as [Ha Hb].
+        destruct (in_combine_snd bs sels sel Hlen Hinsel) as [b0 Hbe].
         exists (kx header (a, b), 0%Z). split.
-        + apply aggregate_rows. cbn [fst snd]. split; [|symmetry; apply const_scores].
-          rewrite cap_rows_const. apply vrows_keys. exists (b0, sel), (a, b). auto.
+        + apply aggregate_rows. cbn [fst snd]. split; [|symmetry; apply g_const_scores].
+          rewrite g_cap_rows_const. apply vrows_keys. exists (b0, sel), (a, b). auto.
         + rewrite (emit_kx header D (a, b) _ Ha Hb). reflexivity.
     Qed.
 
-    Lemma const_keys_closed k : In k (map fst (cap_all_rows c header ps)) ->
+    Lemma g_const_keys_closed k : In k (map fst (cap_all_rows_sel c header ps sels)) ->
       exists xy, k = kx header xy /\ In (fst xy) header /\ In (snd xy) header.
     Proof.
-      rewrite cap_rows_const. intros H. apply vrows_keys in H. destruct H as [be [[x y] [Hbe [Hxy ->]]]].
-      destruct (bes_facts be Hbe) as (_ & Hcl & _). exists (x, y). split; [reflexivity|]. apply (Hcl _ _ Hxy).
+      rewrite g_cap_rows_const. intros H. apply vrows_keys in H. destruct H as [be [[x y] [Hbe [Hxy ->]]]].
+      destruct (g_bes_facts be Hbe) as (_ & Hcl & _). exists (x, y). split; [reflexivity|]. apply (Hcl _ _ Hxy).
     Qed.
   End Const.
 
   (* one row per ordered pair *)
-  Theorem cap_nodup : NoDup (map fst t).
+  Theorem g_cap_nodup : NoDup (map fst t).
   Proof.
-    rewrite cap_t_eq. apply emit_table_nodup. intros k Hk.
-    destruct (Combos.is_const (g_heur c)) eqn:E; [apply (const_keys_closed E)|apply (cov_keys_closed E)]; exact Hk.
+    rewrite g_cap_t_eq. apply emit_table_nodup. intros k Hk.
+    destruct (Combos.is_const (g_heur c)) eqn:E; [apply (g_const_keys_closed E)|apply (g_cov_keys_closed E)]; exact Hk.
   Qed.
+End CapMainG.
+(* ---- the deterministic model (selections computed by Sampler.step) is the instance sels := cap_sels ---- *)
+Lemma cap_config_facts c header : cap_config_ok c header = true ->
+  closed header (cap_cands c header) /\ CombosProofs.once (cap_cands c header).
+Proof.
+  intros Hok. destruct (cap_config_ok_spec _ _ Hok) as (_ & _ & _ & Hnd & Hl & _). split.
+  - intros x y H. apply (CombosProofs.cands_closed header (g_heur c) (g_tro c) (g_label c) Hl x y H).
+  - apply CombosProofs.cands_once. exact Hnd.
+Qed.
+
+Lemma cap_sels_facts c header ps : cap_config_ok c header = true -> forall sel, In sel (cap_sels c header ps) ->
+  incl sel (cap_cands c header) /\ closed header sel /\ NoDup sel /\ oriented sel.
+Proof.
+  intros Hok sel H. destruct (cap_config_facts c header Hok) as [Hcl Honce].
+  pose proof (cap_sels_ok c header ps) as F. rewrite Forall_forall in F.
+  apply (selected_facts header _ (g_cap c) sel Hcl Honce). apply F. exact H.
+Qed.
+
+Section CapMain.
+  Variables (c : config) (header : list str) (ps : list (option (list str))) (t : table).
+  Hypothesis Hrun : e2ecap_core c header ps = Some t.
+
+  Let Hrun' : e2ecap_core_pairs c header ps (cap_sels c header ps) = Some t := Hrun.
+  Let Hlen := cap_sels_length c header ps.
+  Lemma Hsel' : forall sel, In sel (cap_sels c header ps) ->
+    incl sel (cap_cands c header) /\ closed header sel /\ NoDup sel /\ oriented sel.
+  Proof. apply cap_sels_facts. destruct (e2ecap_core_some _ _ _ _ Hrun) as (Hok & _). exact Hok. Qed.
+
+  Definition cap_facts := g_cap_facts c header ps (cap_sels c header ps) t Hrun'.
+  Definition cap_sorted := g_cap_sorted c header ps (cap_sels c header ps) t Hrun'.
+  Definition cap_nodup := g_cap_nodup c header ps (cap_sels c header ps) t Hrun' Hsel'.
+  Definition cap_cov_rows := g_cap_cov_rows c header ps (cap_sels c header ps) t Hrun' Hsel'.
+  Definition cap_const_rows := g_cap_const_rows c header ps (cap_sels c header ps) t Hrun' Hlen Hsel'.
 End CapMain.
+
 
 (* ========================================================================================================== *)
 (* E. fairness, the reported counts, the selections *)
@@ -702,11 +750,11 @@ Proof.
 Qed.
 
 Lemma contributing_sym c header ps a b : contributing c header ps a b = contributing c header ps b a.
-Proof. unfold contributing. f_equal. apply filter_ext. intros ts. apply umemb_sym. Qed.
+Proof. unfold contributing, contributing_sel. f_equal. apply filter_ext. intros ts. apply umemb_sym. Qed.
 
 Lemma contributing_incl c header ps a b : incl (contributing c header ps a b) (batch_tables c header ps).
 Proof.
-  unfold contributing. intros rows H. apply in_map_iff in H. destruct H as [[r sel] [<- H]].
+  unfold contributing, contributing_sel. intros rows H. apply in_map_iff in H. destruct H as [[r sel] [<- H]].
   apply filter_In in H. destruct H as [H _]. apply in_combine_l in H. exact H.
 Qed.
 
@@ -761,7 +809,7 @@ Section Fair.
   (* ... = the number of batches contributing to the pair's median *)
   Theorem contributing_nsel a b : In (a, b) cands -> length (contributing c header ps a b) = nsel sels (a, b).
   Proof.
-    intros Hc. unfold contributing. rewrite map_length.
+    intros Hc. unfold contributing, contributing_sel. rewrite map_length.
     rewrite (filter_combine_snd_length (Combos.umemb (a, b))) by (unfold batch_tables; rewrite map_length; apply cap_sels_length).
     unfold nsel. f_equal. apply filter_ext_in. intros sel Hsel.
     apply (umemb_cand cands sel a b cands_once' (sels_incl sel Hsel) Hc).
@@ -1017,4 +1065,340 @@ Proof.
   - split.
     + unfold cap_counter, cap_sampler. apply cap_steps_reach. replace (Sampler.get []) with (fun _ : Sampler.key => 0) by reflexivity. constructor.
     + intros i p q. apply sels_least_first. exact Hnd.
+Qed.
+
+(* ========================================================================================================== *)
+(* G. the RELATIONAL model: the selections are an input judged by C07's checker (ties are free) *)
+
+Lemma valid_step_ext st1 st2 st1' st2' L cap sel :
+  (forall k, st1 k = st2 k) -> (forall k, st1' k = st2' k) ->
+  Sampler.valid_step st1 L cap sel st1' -> Sampler.valid_step st2 L cap sel st2'.
+Proof.
+  intros E E' [H1 H2 H3 H4]. constructor; [exact H1|exact H2| |].
+  - intros a b Ha Hb. rewrite <- !E. apply H3; assumption.
+  - intros k. rewrite <- E, <- E'. apply H4.
+Qed.
+
+(* C07's checker is also complete for the relation *)
+Lemma valid_stepb_complete s L cap sel s' :
+  Sampler.valid_step (Sampler.get s) L cap sel (Sampler.get s') -> Sampler.valid_stepb s L cap sel s' = true.
+Proof.
+  intros [H1 H2 H3 H4]. unfold Sampler.valid_stepb, Sampler.cnt. rewrite !andb_true_iff. repeat split.
+  - apply forallb_forall. intros k _. apply Nat.leb_le. apply H1.
+  - apply Nat.eqb_eq. exact H2.
+  - apply forallb_forall. intros a Ha. apply forallb_forall. intros b _.
+    destruct (Nat.ltb (cocc sel b) (cocc L b)) eqn:E; cbn [negb orb]; [|reflexivity].
+    apply Nat.leb_le. apply H3; [exact Ha|]. apply Nat.ltb_lt. exact E.
+  - apply forallb_forall. intros k _. apply Nat.eqb_eq. apply H4.
+Qed.
+
+(* the transcription's own history is accepted, also against the counts derived from the selections alone *)
+Lemma derived_valid_runb L cap : forall nb s d, (forall k, Sampler.get d k = Sampler.get s k) ->
+  Sampler.valid_runb d (map (fun cp : Z => (L, cp)) (repeat cap nb)) (Sampler.derived_obs d (fst (cap_steps s L cap nb))) = true.
+Proof.
+  induction nb as [|nb IH]; intros s d E; [reflexivity|].
+  cbn [cap_steps fst repeat map Sampler.derived_obs Sampler.valid_runb].
+  pose proof (SamplerProofs.step_valid s L cap) as V.
+  assert (E' : forall k, Sampler.get (fold_left Sampler.incr (fst (Sampler.step s L cap)) d) k = Sampler.get (snd (Sampler.step s L cap)) k).
+  { intros k. rewrite SamplerProofs.get_fold_incr, E. symmetry. apply (Sampler.vs_state _ _ _ _ _ V). }
+  apply andb_true_iff. split.
+  - apply valid_stepb_complete. eapply valid_step_ext; [| |exact V]; intros k; symmetry; [apply E|apply E'].
+  - apply IH. exact E'.
+Qed.
+
+(* what an accepted history of selections satisfies *)
+Lemma valid_runb_derived_facts L : forall isels caps s,
+  Sampler.valid_runb s (map (fun cp : Z => (L, cp)) caps) (Sampler.derived_obs s isels) = true ->
+  length isels = length caps /\ Forall (fun isel => incl isel L /\ (NoDup L -> NoDup isel)) isels.
+Proof.
+  induction isels as [|isel r IH]; intros caps s H.
+  - destruct caps; [split; [reflexivity|constructor]|discriminate].
+  - destruct caps as [|cp caps]; [discriminate|]. cbn [map Sampler.derived_obs Sampler.valid_runb] in H.
+    apply andb_true_iff in H. destruct H as [H1 H2]. apply SamplerProofs.valid_stepb_sound in H1.
+    destruct (IH _ _ H2) as [I1 I2]. split; [cbn [length]; rewrite I1; reflexivity|]. constructor; [|exact I2].
+    split; [eapply SamplerProofs.vs_incl; exact H1|]. intros Hnd. eapply SamplerProofs.vs_nodup; eassumption.
+Qed.
+
+Lemma cap_ops_eq c header nb :
+  cap_ops c header nb = map (fun cp : Z => (cap_ids (cap_cands c header), cp)) (repeat (g_cap c) nb).
+Proof. reflexivity. Qed.
+
+Lemma sels_ok_spec c header ps isels : sels_ok c header ps isels = true ->
+  length isels = nbatches c header ps /\
+  Sampler.valid_runb [] (cap_ops c header (nbatches c header ps)) (Sampler.derived_obs [] isels) = true.
+Proof. unfold sels_ok. rewrite andb_true_iff, Nat.eqb_eq. tauto. Qed.
+
+Lemma sels_ok_facts c header ps isels : NoDup header -> sels_ok c header ps isels = true ->
+  length isels = nbatches c header ps /\
+  Forall (fun isel => incl isel (cap_ids (cap_cands c header)) /\ NoDup isel) isels.
+Proof.
+  intros Hnd H. destruct (sels_ok_spec _ _ _ _ H) as [Hl Hv]. split; [exact Hl|].
+  rewrite cap_ops_eq in Hv. destruct (valid_runb_derived_facts _ _ _ _ Hv) as [_ F].
+  eapply Forall_impl; [|exact F]. intros isel [H1 H2]. split; [exact H1|]. apply H2.
+  apply cap_ids_nodup. apply (CombosProofs.cands_once header (g_heur c) (g_tro c) (g_label c) Hnd).
+Qed.
+
+(* ids -> pairs: a duplicate-free list of candidate ids stands for a duplicate-free sub-list of the candidates *)
+Lemma of_id_inj cands i j : In i (cap_ids cands) -> In j (cap_ids cands) -> of_id cands i = of_id cands j -> i = j.
+Proof.
+  intros Hi Hj E. destruct (in_cap_ids cands i Hi) as [p [_ [Ei Oi]]], (in_cap_ids cands j Hj) as [q [_ [Ej Oj]]].
+  rewrite Oi, Oj in E. subst. reflexivity.
+Qed.
+
+Lemma id_sel_facts header cands isel : closed header cands -> CombosProofs.once cands ->
+  incl isel (cap_ids cands) -> NoDup isel ->
+  incl (map (of_id cands) isel) cands /\ closed header (map (of_id cands) isel) /\ NoDup (map (of_id cands) isel)
+  /\ oriented (map (of_id cands) isel).
+Proof.
+  intros Hcl [Hnd Hor] Hi Hn.
+  assert (Hinc : incl (map (of_id cands) isel) cands).
+  { intros p Hp. apply in_map_iff in Hp. destruct Hp as [i [<- Hin]].
+    destruct (in_cap_ids cands i (Hi _ Hin)) as [q [Hq [_ Eo]]]. rewrite Eo. exact Hq. }
+  split; [exact Hinc|]. split; [intros a b H; apply Hcl, Hinc, H|]. split.
+  - apply NoDup_map_on; [|exact Hn]. intros x y Hx Hy. apply of_id_inj; apply Hi; assumption.
+  - intros a b H1 H2. apply Hor; apply Hinc; assumption.
+Qed.
+
+(* general: number of contributing batches of a candidate = number of selections that list it *)
+Lemma contributing_sel_nsel c header ps sels a b :
+  CombosProofs.once (cap_cands c header) -> (forall sel, In sel sels -> incl sel (cap_cands c header)) ->
+  length sels = length (e2e_batches c header ps) -> In (a, b) (cap_cands c header) ->
+  length (contributing_sel c header ps sels a b) = nsel sels (a, b).
+Proof.
+  intros Honce Hi Hl Hc. unfold contributing_sel. rewrite map_length.
+  rewrite (filter_combine_snd_length (Combos.umemb (a, b))) by (unfold batch_tables; rewrite map_length; exact Hl).
+  unfold nsel. f_equal. apply filter_ext_in. intros sel Hsel.
+  apply (umemb_cand _ sel a b Honce (Hi sel Hsel) Hc).
+Qed.
+
+Lemma contributing_sel_sym c header ps sels a b : contributing_sel c header ps sels a b = contributing_sel c header ps sels b a.
+Proof. unfold contributing_sel. f_equal. apply filter_ext. intros ts. apply umemb_sym. Qed.
+
+Lemma contributing_sel_incl c header ps sels a b : incl (contributing_sel c header ps sels a b) (batch_tables c header ps).
+Proof.
+  unfold contributing_sel. intros rows H. apply in_map_iff in H. destruct H as [[r sel] [<- H]].
+  apply filter_In in H. destruct H as [H _]. apply in_combine_l in H. exact H.
+Qed.
+
+Lemma get_map_keys (f : Sampler.key -> nat) L k : In k L -> Sampler.get (map (fun k => (k, f k)) L) k = f k.
+Proof.
+  induction L as [|h L IH]; intros H; [destruct H|]. cbn [map Sampler.get].
+  destruct (Nat.eqb k h) eqn:E; [apply Nat.eqb_eq in E; subst; reflexivity|].
+  apply IH. destruct H as [H|H]; [|exact H]. apply Nat.eqb_neq in E. congruence.
+Qed.
+
+Lemma map_of_id_ids cands : map (of_id cands) (cap_ids cands) = cands.
+Proof.
+  unfold cap_ids, of_id. rewrite map_map. transitivity (map (fun p : Combos.pair => p) cands); [|apply map_id].
+  apply map_ext_in. intros p Hp. apply CombosProofs.nth_pidx. exact Hp.
+Qed.
+
+Section CapRel.
+  Variables (c : config) (header : list str) (ps : list (option (list str))) (isels : list (list Sampler.key)) (t : table).
+  Hypothesis Hok : sels_ok c header ps isels = true.
+  Hypothesis Hrun : e2ecap_core_sel c header ps isels = Some t.
+
+  Let cands := cap_cands c header.
+  Let ids := cap_ids cands.
+  Let sels := sel_pairs c header isels.
+
+  Lemma rel_config : cap_config_ok c header = true.
+  Proof. destruct (e2ecap_core_pairs_some _ _ _ _ _ Hrun) as (H & _). exact H. Qed.
+
+  Lemma rel_nodup_header : NoDup header.
+  Proof. destruct (cap_config_ok_spec _ _ rel_config) as (_ & _ & _ & H & _). exact H. Qed.
+
+  Lemma rel_isels : length isels = nbatches c header ps /\ Forall (fun isel => incl isel ids /\ NoDup isel) isels.
+  Proof. apply sels_ok_facts; [apply rel_nodup_header|exact Hok]. Qed.
+
+  Lemma rel_len : length sels = length (e2e_batches c header ps).
+  Proof. unfold sels, sel_pairs. rewrite map_length. apply (proj1 rel_isels). Qed.
+
+  Lemma rel_sel : forall sel, In sel sels -> incl sel cands /\ closed header sel /\ NoDup sel /\ oriented sel.
+  Proof.
+    intros sel H. unfold sels, sel_pairs in H. apply in_map_iff in H. destruct H as [isel [<- Hin]].
+    destruct (cap_config_facts c header rel_config) as [Hcl Honce].
+    destruct rel_isels as [_ F]. rewrite Forall_forall in F. destruct (F _ Hin) as [H1 H2].
+    apply id_sel_facts; assumption.
+  Qed.
+
+  Definition rel_facts := g_cap_facts c header ps sels t Hrun.
+  Definition rel_sorted := g_cap_sorted c header ps sels t Hrun.
+  Definition rel_nodup := g_cap_nodup c header ps sels t Hrun rel_sel.
+  Definition rel_cov_rows := g_cap_cov_rows c header ps sels t Hrun rel_sel.
+  Definition rel_const_rows := g_cap_const_rows c header ps sels t Hrun rel_len rel_sel.
+
+  (* selection counts: pairs <-> ids *)
+  Lemma rel_nsel p : In p cands -> nsel sels p = Sampler.sel_count isels (Combos.pidx cands p).
+  Proof.
+    intros Hp. symmetry. destruct (cap_config_facts c header rel_config) as [_ Honce].
+    apply (sel_count_nsel cands p (proj1 Honce) Hp isels (proj2 rel_isels)).
+  Qed.
+
+  Lemma rel_contributing_nsel a b : In (a, b) cands -> length (contributing_sel c header ps sels a b) = nsel sels (a, b).
+  Proof.
+    intros Hc. destruct (cap_config_facts c header rel_config) as [_ Honce].
+    apply contributing_sel_nsel; [exact Honce| |apply rel_len|exact Hc]. intros sel Hs. apply (rel_sel sel Hs).
+  Qed.
+
+  (* C07_selection_history_fair instantiated *)
+  Theorem rel_nsel_fair p q : In p cands -> In q cands -> nsel sels p <= S (nsel sels q).
+  Proof.
+    intros Hp Hq. rewrite !rel_nsel by assumption.
+    destruct (sels_ok_spec _ _ _ _ Hok) as [_ Hv]. rewrite cap_ops_eq in Hv.
+    destruct (cap_config_facts c header rel_config) as [_ Honce].
+    apply (SamplerProofs.selection_history_fair ids (repeat (g_cap c) (nbatches c header ps)) isels).
+    - apply cap_ids_nodup. exact (proj1 Honce).
+    - exact Hv.
+    - apply pidx_in_ids. exact Hp.
+    - apply pidx_in_ids. exact Hq.
+  Qed.
+
+  Theorem rel_contributing_fair a b a' b' : requested c header a b -> requested c header a' b' ->
+    length (contributing_sel c header ps sels a b) <= S (length (contributing_sel c header ps sels a' b')).
+  Proof.
+    destruct rel_facts as (_ & Hs & _).
+    intros H1 H2. apply (requested_uin c header _ _ Hs) in H1, H2. rewrite <- cap_cands_eq in H1, H2. fold cands in H1, H2.
+    assert (G : forall x y x' y', In (x, y) cands -> In (x', y') cands ->
+                length (contributing_sel c header ps sels x y) <= S (length (contributing_sel c header ps sels x' y'))).
+    { intros x y x' y' Hx Hy. rewrite !rel_contributing_nsel by assumption. apply rel_nsel_fair; assumption. }
+    destruct H1 as [H1|H1], H2 as [H2|H2]; cbn [CombosProofs.swapp fst snd] in *.
+    - apply G; assumption.
+    - rewrite (contributing_sel_sym c header ps sels a' b'). apply G; assumption.
+    - rewrite (contributing_sel_sym c header ps sels a b). apply G; assumption.
+    - rewrite (contributing_sel_sym c header ps sels a b), (contributing_sel_sym c header ps sels a' b'). apply G; assumption.
+  Qed.
+
+  (* the counter the selections imply *)
+  Lemma rel_counter_get k : Sampler.get (cap_counter_sel c header isels) k = Sampler.sel_count isels k.
+  Proof.
+    unfold cap_counter_sel. fold cands ids. destruct (in_dec Nat.eq_dec k ids) as [Hin|Hn].
+    - apply get_map_keys. exact Hin.
+    - rewrite SamplerProofs.get_notin by (rewrite map_map; cbn [fst]; rewrite map_id; exact Hn).
+      symmetry. apply SamplerProofs.sel_count_notin. intros H. apply Hn. apply in_concat in H. destruct H as [isel [H1 H2]].
+      destruct rel_isels as [_ F]. rewrite Forall_forall in F. apply (proj1 (F _ H1)). exact H2.
+  Qed.
+
+  Theorem rel_reportb : Sampler.reportb isels (cap_counter_sel c header isels) = true.
+  Proof. unfold Sampler.reportb. apply forallb_forall. intros k _. apply Nat.eqb_eq. apply rel_counter_get. Qed.
+
+  Theorem rel_counts_spec :
+    (forall p n, In (p, n) (cap_counts_sel c header isels) <-> In p cands /\ n = nsel sels p) /\
+    map fst (cap_counts_sel c header isels) = cands.
+  Proof.
+    unfold cap_counts_sel, cap_counter_sel. fold cands ids. rewrite !map_map. cbn [fst snd]. split.
+    - intros p n. rewrite in_map_iff. split.
+      + intros [k [E Hk]]. inversion E; subst p n. clear E.
+        destruct (in_cap_ids cands k Hk) as [p' [Hp' [Ek Eo]]]. rewrite Eo. split; [exact Hp'|].
+        rewrite rel_nsel by exact Hp'. rewrite Ek. reflexivity.
+      + intros [Hp ->]. exists (Combos.pidx cands p). split; [|apply pidx_in_ids; exact Hp].
+        unfold of_id. rewrite CombosProofs.nth_pidx by exact Hp. rewrite rel_nsel by exact Hp. reflexivity.
+    - apply map_of_id_ids.
+  Qed.
+End CapRel.
+
+(* ---- assembled relational statements ---- *)
+Lemma rel_tables_facts c header ps isels t : sels_ok c header ps isels = true -> e2ecap_core_sel c header ps isels = Some t ->
+  let D := common_den (e2e_batches c header ps) in
+  batch_tables c header ps <> [] /\ D <> 0%N /\
+  Forall (fun rows => rows <> [] /\ (N.of_nat (length rows) | D)%N) (batch_tables c header ps) /\
+  length isels = length (batch_tables c header ps).
+Proof.
+  intros Hok Hrun D. destruct (rel_facts c header ps isels t Hrun) as (_ & _ & _ & _ & _ & _ & Hne & HD & Hb & _).
+  split; [|split; [exact HD|split]].
+  - unfold batch_tables. intros E. apply map_eq_nil in E. contradiction.
+  - unfold batch_tables. apply Forall_map. apply Forall_forall. intros b Hin. destruct (Hb b Hin) as [H1 H2].
+    unfold batch_rows. rewrite map_length. split; [|exact H2]. intros E. apply map_eq_nil in E. contradiction.
+  - unfold batch_tables. rewrite map_length. apply (proj1 (sels_ok_spec _ _ _ _ Hok)).
+Qed.
+
+Theorem e2ecap_spec_rel c header ps isels t :
+  sels_ok c header ps isels = true -> e2ecap_core_sel c header ps isels = Some t -> Combos.is_const (g_heur c) = false ->
+  let tables := batch_tables c header ps in
+  let D := common_den (e2e_batches c header ps) in
+  let sels := sel_pairs c header isels in
+  tables <> [] /\ D <> 0%N /\ Forall (fun rows => rows <> [] /\ (N.of_nat (length rows) | D)%N) tables /\
+  length isels = length tables /\
+  StronglySorted (fun r1 r2 : str * str * Q => Qle (snd r1) (snd r2)) t /\
+  NoDup (map fst t) /\
+  (forall a b q, In (a, b, q) t <->
+     requested c header a b /\ contributing_sel c header ps sels a b <> [] /\
+     q = Qmake (median2 (map (fun rows => Z.of_N (pair_num header D rows a b)) (contributing_sel c header ps sels a b))) (den_pos D)) /\
+  (forall a b, requested c header a b -> requested c header b a) /\
+  (forall a b, contributing_sel c header ps sels a b = contributing_sel c header ps sels b a /\
+               incl (contributing_sel c header ps sels a b) tables) /\
+  (forall rows a b, In rows tables ->
+     Qeq (Z.of_N (pair_num header D rows a b) # npos D) (cells_cov (column header rows a) (column header rows b)) /\
+     is_max_cov (column header rows a) (column header rows b) (cells_cov (column header rows a) (column header rows b))).
+Proof.
+  intros Hok Hrun Hcov tables D sels. destruct (rel_tables_facts c header ps isels t Hok Hrun) as (H1 & H2 & H3 & H4).
+  split; [exact H1|]. split; [exact H2|]. split; [exact H3|]. split; [exact H4|].
+  split; [apply (rel_sorted c header ps isels t Hrun)|]. split; [apply (rel_nodup c header ps isels t Hok Hrun)|].
+  split; [intros a b q; apply (rel_cov_rows c header ps isels t Hok Hrun Hcov)|].
+  split; [intros a b; apply requested_sym|].
+  split; [intros a b; split; [apply contributing_sel_sym|apply contributing_sel_incl]|].
+  intros rows a b Hin. fold tables in H3. rewrite Forall_forall in H3. destruct (H3 rows Hin) as [Hr Hd].
+  apply batch_score_exact; assumption.
+Qed.
+
+Theorem e2ecap_spec_constant_rel c header ps isels t :
+  sels_ok c header ps isels = true -> e2ecap_core_sel c header ps isels = Some t -> Combos.is_const (g_heur c) = true ->
+  batch_tables c header ps <> [] /\
+  NoDup (map fst t) /\
+  (forall a b q, In (a, b, q) t <->
+     In (a, b) (cap_cands c header) /\ (exists sel, In sel (sel_pairs c header isels) /\ In (a, b) sel) /\
+     q = Qmake 0 (den_pos (common_den (e2e_batches c header ps)))).
+Proof.
+  intros Hok Hrun Hc. destruct (rel_tables_facts c header ps isels t Hok Hrun) as (H1 & _).
+  split; [exact H1|]. split; [apply (rel_nodup c header ps isels t Hok Hrun)|].
+  intros a b q. apply (rel_const_rows c header ps isels t Hok Hrun Hc).
+Qed.
+
+Theorem e2ecap_fair_rel c header ps isels t :
+  sels_ok c header ps isels = true -> e2ecap_core_sel c header ps isels = Some t ->
+  let sels := sel_pairs c header isels in
+  (forall a b a' b', requested c header a b -> requested c header a' b' ->
+     length (contributing_sel c header ps sels a b) <= S (length (contributing_sel c header ps sels a' b'))) /\
+  (forall p q, In p (cap_cands c header) -> In q (cap_cands c header) -> nsel sels p <= S (nsel sels q)) /\
+  (forall i j, In i (cap_ids (cap_cands c header)) -> In j (cap_ids (cap_cands c header)) ->
+     Sampler.sel_count isels i <= S (Sampler.sel_count isels j)).
+Proof.
+  intros Hok Hrun sels. split; [intros a b a' b'; apply (rel_contributing_fair c header ps isels t Hok Hrun)|].
+  split; [intros p q; apply (rel_nsel_fair c header ps isels t Hok Hrun)|].
+  intros i j Hi Hj. destruct (in_cap_ids _ i Hi) as [p [Hp [-> _]]], (in_cap_ids _ j Hj) as [q [Hq [-> _]]].
+  rewrite <- !(rel_nsel c header ps isels t Hok Hrun) by assumption. apply (rel_nsel_fair c header ps isels t Hok Hrun); assumption.
+Qed.
+
+Theorem e2ecap_counts_rel c header ps isels t :
+  sels_ok c header ps isels = true -> e2ecap_core_sel c header ps isels = Some t ->
+  let sels := sel_pairs c header isels in
+  (forall k, Sampler.get (cap_counter_sel c header isels) k = Sampler.sel_count isels k) /\
+  Sampler.reportb isels (cap_counter_sel c header isels) = true /\
+  (forall p n, In (p, n) (cap_counts_sel c header isels) <-> In p (cap_cands c header) /\ n = nsel sels p) /\
+  map fst (cap_counts_sel c header isels) = cap_cands c header /\
+  (forall p, In p (cap_cands c header) ->
+     nsel sels p = Sampler.sel_count isels (Combos.pidx (cap_cands c header) p) /\
+     nsel sels p = length (contributing_sel c header ps sels (fst p) (snd p))).
+Proof.
+  intros Hok Hrun sels. split; [apply (rel_counter_get c header ps isels t Hok Hrun)|].
+  split; [apply (rel_reportb c header ps isels t Hok Hrun)|].
+  destruct (rel_counts_spec c header ps isels t Hok Hrun) as [C1 C2]. split; [exact C1|]. split; [exact C2|].
+  intros [a b] Hp. split; [apply (rel_nsel c header ps isels t Hok Hrun); exact Hp|].
+  symmetry. apply (rel_contributing_nsel c header ps isels t Hok Hrun). exact Hp.
+Qed.
+
+(* the deterministic model is one admissible instance *)
+Theorem e2ecap_sel_instance c header ps :
+  let isels := fst (cap_sampler c header (nbatches c header ps)) in
+  sels_ok c header ps isels = true /\
+  e2ecap_core_sel c header ps isels = e2ecap_core c header ps /\
+  sel_pairs c header isels = cap_sels c header ps /\
+  (forall a b, contributing_sel c header ps (sel_pairs c header isels) a b = contributing c header ps a b) /\
+  (forall k, Sampler.sel_count isels k = Sampler.get (cap_counter c header ps) k).
+Proof.
+  intros isels. split; [|split; [reflexivity|split; [reflexivity|split; [reflexivity|]]]].
+  - unfold sels_ok. apply andb_true_iff. split.
+    + apply Nat.eqb_eq. apply cap_steps_length.
+    + rewrite cap_ops_eq. unfold isels, cap_sampler. apply derived_valid_runb. reflexivity.
+  - intros k. unfold cap_counter, isels, cap_sampler. rewrite cap_steps_get. reflexivity.
 Qed.
